@@ -307,56 +307,93 @@ func ruleC06Order(p *Prog, r *Res) {
 		}
 		info := f.Pkg.TypesInfo
 		fl := p.Flow(f)
-		// guard ranges: range over references whose body contains a `continue` guarded by an uncertainty test
-		var guardX []ast.Node
-		ast.Inspect(f.Body(), func(x ast.Node) bool {
-			rs, ok := x.(*ast.RangeStmt)
-			if !ok {
-				return true
-			}
-			isRefs := false
-			xe := ast.Unparen(rs.X)
+		// guards: constructs that skip the iteration (continue) while a referenced tag is undecided. Two idioms:
+		// (A) a range over a reference list whose body continues the outer loop under an uncertainty test;
+		// (B) an if statement whose condition asks slices.ContainsFunc/slices.Contains…(<reference list>, …) and whose
+		//     body ends in continue. Each guard covers the main-query references, the sub-query references, or both
+		//     (referencedTags()).
+		type guard struct {
+			node   ast.Node
+			covers map[string]bool
+		}
+		var guards []guard
+		refKind := func(e ast.Expr) map[string]bool {
+			xe := ast.Unparen(e)
 			if c, ok := xe.(*ast.CallExpr); ok && p.Callee(f.Pkg, c) == refTags {
-				isRefs = true
+				return map[string]bool{"main": true, "sub": true}
 			}
-			if se, ok := xe.(*ast.SelectorExpr); ok && (se.Sel.Name == "MainTags" || se.Sel.Name == "SubQueryTags") {
-				isRefs = true
+			if se, ok := xe.(*ast.SelectorExpr); ok {
+				switch se.Sel.Name {
+				case "MainTags":
+					return map[string]bool{"main": true}
+				case "SubQueryTags":
+					return map[string]bool{"sub": true}
+				}
 			}
 			if obj := identObj(info, xe); obj != nil {
-				// local holding referencedTags()
+				var out map[string]bool
 				ast.Inspect(f.Body(), func(y ast.Node) bool {
 					if as, ok := y.(*ast.AssignStmt); ok {
 						for i, l := range as.Lhs {
 							if sameObj(info, l, obj) && i < len(as.Rhs) {
 								if c, ok := ast.Unparen(as.Rhs[i]).(*ast.CallExpr); ok && p.Callee(f.Pkg, c) == refTags {
-									isRefs = true
+									out = map[string]bool{"main": true, "sub": true}
 								}
 							}
 						}
 					}
 					return true
 				})
+				return out
 			}
-			if !isRefs {
-				return true
-			}
-			skips := false
-			ast.Inspect(rs.Body, func(y ast.Node) bool {
-				if ifs, ok := y.(*ast.IfStmt); ok {
-					cond := types.ExprString(ifs.Cond)
-					if strings.Contains(cond, "Uncertain") || strings.Contains(cond, "uncertainTags") || strings.Contains(cond, "ok") {
-						ast.Inspect(ifs.Body, func(z ast.Node) bool {
-							if b, ok := z.(*ast.BranchStmt); ok && b.Tok == token.CONTINUE && b.Label != nil {
-								skips = true
+			return nil
+		}
+		ast.Inspect(f.Body(), func(x ast.Node) bool {
+			switch s := x.(type) {
+			case *ast.RangeStmt:
+				cov := refKind(s.X)
+				if cov == nil {
+					return true
+				}
+				skips := false
+				ast.Inspect(s.Body, func(y ast.Node) bool {
+					if ifs, ok := y.(*ast.IfStmt); ok {
+						cond := types.ExprString(ifs.Cond)
+						if strings.Contains(cond, "Uncertain") || strings.Contains(cond, "uncertainTags") || strings.Contains(cond, "ok") {
+							ast.Inspect(ifs.Body, func(z ast.Node) bool {
+								if b, ok := z.(*ast.BranchStmt); ok && b.Tok == token.CONTINUE && b.Label != nil {
+									skips = true
+								}
+								return true
+							})
+						}
+					}
+					return true
+				})
+				if skips {
+					guards = append(guards, guard{s.X, cov})
+				}
+			case *ast.IfStmt:
+				if len(s.Body.List) == 0 {
+					return true
+				}
+				if b, ok := s.Body.List[len(s.Body.List)-1].(*ast.BranchStmt); !ok || b.Tok != token.CONTINUE {
+					return true
+				}
+				cov := map[string]bool{}
+				// only disjuncts count: `A || B` skips when either list has an undecided tag
+				for _, d := range disjuncts(s.Cond) {
+					if c, ok := ast.Unparen(d).(*ast.CallExpr); ok && len(c.Args) == 2 {
+						if fn := p.Callee(f.Pkg, c); fn != nil && fn.Pkg() != nil && fn.Pkg().Path() == "slices" && (fn.Name() == "ContainsFunc" || fn.Name() == "IndexFunc") {
+							for k := range refKind(c.Args[0]) {
+								cov[k] = true
 							}
-							return true
-						})
+						}
 					}
 				}
-				return true
-			})
-			if skips {
-				guardX = append(guardX, rs.X)
+				if len(cov) > 0 {
+					guards = append(guards, guard{s.Cond, cov})
+				}
 			}
 			return true
 		})
@@ -379,16 +416,19 @@ func ruleC06Order(p *Prog, r *Res) {
 			if len(starts) == 0 {
 				starts = []Pt{fl.Entry()}
 			}
-			passed := 0
-			for _, g := range guardX {
-				gx := g
+			covered := map[string]bool{}
+			for _, g := range guards {
+				gx := g.node
 				res := fl.Reach(starts, func(m ast.Node) bool { return m == fl.node(e) }, func(m ast.Node) bool { return m == gx })
 				if !res.Found {
-					passed++
+					for k := range g.covers {
+						covered[k] = true
+					}
 				}
 			}
-			r.Check(passed >= wantGuards, rule, fkey+" "+what, p.Pos(fl.node(e)), fmt.Sprintf("%d guarding range(s) over the tag's references dominate the evaluation within the iteration", passed),
-				fmt.Sprintf("only %d of the %d required reference-guard loops lie on every path to the evaluation: a tag can be evaluated while a tag it references is still undecided, and the answer computed from the stale reference is published as decided", passed, wantGuards))
+			_ = wantGuards
+			r.Check(covered["main"] && covered["sub"], rule, fkey+" "+what, p.Pos(fl.node(e)), "guards over the main-query and the sub-query references dominate the evaluation within the iteration",
+				fmt.Sprintf("the evaluation is not guarded for all references (main-query references guarded: %v, sub-query references guarded: %v): a tag can be evaluated while a tag it references is still undecided, and the answer computed from the stale reference is published as decided", covered["main"], covered["sub"]))
 		}
 	}
 	check("manager.Manager.startTaggingJobIfNeeded", func(f *Fn, nd ast.Node) bool {
